@@ -1,5 +1,200 @@
 package main
 
+// Thorough-tier self-validation of the checker. Every catalogue entry is applied to a scratch
+// copy of the repository under $TMPDIR and analysed in a SEPARATE process (memory stays
+// bounded); the copy is deleted immediately. Entries:
+//   - /verif/seeded/<id>/patch.diff   (independently written, dynamically confirmed breakages)
+//   - /verif/mutants/catalogue.json   (single-site semantic mutants, each must fire;
+//                                       behaviour-preserving edits, each must stay silent)
+// The result is evidence about the checker; it never changes a property's verdict.
+
+import (
+	"encoding/json"
+	"fmt"
+	"os"
+	"os/exec"
+	"path/filepath"
+	"sort"
+	"strings"
+	"sync"
+)
+
+type mutant struct {
+	ID     string   `json:"id"`
+	Props  []string `json:"props"` // properties whose check must fire (or stay silent for benign)
+	File   string   `json:"file"`  // relative to the repository
+	Old    string   `json:"old"`   // must occur exactly once
+	New    string   `json:"new"`
+	Benign bool     `json:"benign"` // behaviour-preserving: every listed check must stay silent
+	Expect string   `json:"expect"` // rule id expected to fire (informational)
+	Why    string   `json:"why"`
+	patch  string   // path of a patch file instead of old/new
+}
+
 func selftestImpl(verifDir, repo, prop string) map[string]any {
-	return map[string]any{"status": "no mutant catalogue entries for this property yet"}
+	var entries []mutant
+	// seeded patches
+	if ds, err := filepath.Glob(filepath.Join(verifDir, "seeded", "*", "meta.json")); err == nil {
+		sort.Strings(ds)
+		for _, m := range ds {
+			b, err := os.ReadFile(m)
+			if err != nil {
+				continue
+			}
+			var meta struct {
+				ID       string   `json:"id"`
+				Property string   `json:"property"`
+				CaughtBy []string `json:"caught_by"`
+			}
+			if json.Unmarshal(b, &meta) != nil {
+				continue
+			}
+			want := meta.Property == prop
+			for _, p := range meta.CaughtBy {
+				if p == prop {
+					want = true
+				}
+			}
+			if want {
+				entries = append(entries, mutant{ID: "seeded/" + meta.ID, Props: []string{prop}, patch: filepath.Join(filepath.Dir(m), "patch.diff")})
+			}
+		}
+	}
+	// catalogue
+	if b, err := os.ReadFile(filepath.Join(verifDir, "mutants", "catalogue.json")); err == nil {
+		var cat []mutant
+		if err := json.Unmarshal(b, &cat); err == nil {
+			for _, m := range cat {
+				for _, p := range m.Props {
+					if p == prop {
+						mm := m
+						mm.Props = []string{prop}
+						entries = append(entries, mm)
+					}
+				}
+			}
+		}
+	}
+	exe, _ := os.Executable()
+	type res struct {
+		ID      string `json:"id"`
+		Kind    string `json:"kind"`
+		Outcome string `json:"outcome"`
+		Detail  string `json:"detail,omitempty"`
+	}
+	results := make([]res, len(entries))
+	sem := make(chan struct{}, 8)
+	var wg sync.WaitGroup
+	for i, m := range entries {
+		wg.Add(1)
+		go func(i int, m mutant) {
+			defer wg.Done()
+			sem <- struct{}{}
+			defer func() { <-sem }()
+			kind := "must-fire"
+			if m.Benign {
+				kind = "must-stay-silent"
+			}
+			r := res{ID: m.ID, Kind: kind}
+			tmp, err := os.MkdirTemp("", "turncheck-self-")
+			if err != nil {
+				r.Outcome = "skipped"
+				r.Detail = err.Error()
+				results[i] = r
+				return
+			}
+			defer os.RemoveAll(tmp)
+			dst := filepath.Join(tmp, "repo")
+			if out, err := exec.Command("rsync", "-a", "--exclude", ".git", repo+"/", dst+"/").CombinedOutput(); err != nil {
+				r.Outcome, r.Detail = "skipped", "copy failed: "+string(out)
+				results[i] = r
+				return
+			}
+			if m.patch != "" {
+				cmd := exec.Command("patch", "-p1", "-s", "-f", "-i", m.patch)
+				cmd.Dir = dst
+				if out, err := cmd.CombinedOutput(); err != nil {
+					r.Outcome, r.Detail = "skipped", "patch no longer applies to the current tree: "+firstLine(string(out))
+					results[i] = r
+					return
+				}
+			} else {
+				p := filepath.Join(dst, m.File)
+				b, err := os.ReadFile(p)
+				if err != nil || strings.Count(string(b), m.Old) != 1 {
+					r.Outcome, r.Detail = "skipped", "anchor text no longer occurs exactly once in "+m.File
+					results[i] = r
+					return
+				}
+				os.WriteFile(p, []byte(strings.Replace(string(b), m.Old, m.New, 1)), 0o644)
+			}
+			vdir := filepath.Join(tmp, "v")
+			os.MkdirAll(filepath.Join(vdir, "evidence"), 0o755)
+			if kb, err := os.ReadFile(filepath.Join(verifDir, "known_findings.json")); err == nil {
+				os.WriteFile(filepath.Join(vdir, "known_findings.json"), kb, 0o644)
+			}
+			cmd := exec.Command(exe, "-prop", prop, "-tier", "quick", "-repo", dst, "-verif", vdir)
+			cmd.Env = append(os.Environ(), "GOFLAGS=-mod=mod", "GOPROXY=off", "GOCACHE="+filepath.Join(tmp, "gocache"))
+			out, _ := cmd.CombinedOutput()
+			code := cmd.ProcessState.ExitCode()
+			fired := ""
+			for _, l := range strings.Split(string(out), "\n") {
+				l = strings.TrimSpace(l)
+				if strings.HasPrefix(l, "VIOLATED") || strings.HasPrefix(l, "UNDECIDED") {
+					f := strings.Fields(l)
+					if len(f) > 1 {
+						fired = f[1]
+						break
+					}
+				}
+			}
+			switch {
+			case code == 2:
+				r.Outcome, r.Detail = "analysis-failure", firstLine(string(out))
+			case m.Benign && code == 0:
+				r.Outcome = "silent (as required)"
+			case m.Benign:
+				r.Outcome, r.Detail = "FALSE ALARM", fired
+			case code == 1:
+				r.Outcome, r.Detail = "fired", fired
+			default:
+				r.Outcome = "MISSED"
+			}
+			results[i] = r
+		}(i, m)
+	}
+	wg.Wait()
+	n := map[string]int{}
+	var bad []string
+	for _, r := range results {
+		switch {
+		case r.Outcome == "fired" || strings.HasPrefix(r.Outcome, "silent"):
+			n["as_expected"]++
+		case r.Outcome == "skipped":
+			n["skipped"]++
+		default:
+			n["unexpected"]++
+			bad = append(bad, fmt.Sprintf("%s: %s %s", r.ID, r.Outcome, r.Detail))
+		}
+	}
+	return map[string]any{
+		"what":        "checker self-validation: each entry applied to a scratch copy of the current tree and analysed in its own process; does not influence the verdict",
+		"entries":     len(entries),
+		"as_expected": n["as_expected"],
+		"skipped":     n["skipped"],
+		"unexpected":  n["unexpected"],
+		"problems":    bad,
+		"results":     results,
+	}
+}
+
+func firstLine(s string) string {
+	s = strings.TrimSpace(s)
+	if i := strings.IndexByte(s, '\n'); i >= 0 {
+		s = s[:i]
+	}
+	if len(s) > 300 {
+		s = s[:300]
+	}
+	return s
 }
